@@ -21,6 +21,7 @@ type PropConfig struct {
 	Assume    []string `json:"assumptions"`
 	Residual  string   `json:"residual"`
 	Lemmas    []string `json:"lemmas"`
+	Core      []string `json:"core"` // regexps: generated obligations matching one of them must be claimed in the quick tier (guards against the silent loss of the obligations that carry the property)
 }
 
 type KnownFinding struct {
@@ -140,11 +141,64 @@ func cmdCheck(args []string) {
 			all = append(all, o)
 		}
 	}
+	// core obligations must be claimed: a claim file that lost one of them no longer decides the property
+	if !*writeClaims {
+		var lost []string
+		for _, pat := range cfg.Core {
+			re := regexp.MustCompile(pat)
+			matched := false
+			for _, r := range all {
+				if re.MatchString(r.Obl.Name) {
+					matched = true
+					if _, isKnown := known[r.Obl.Name]; !claims[r.Obl.Name] && !isKnown {
+						lost = append(lost, r.Obl.Name)
+					}
+				}
+			}
+			if !matched && len(fnErr) == 0 {
+				// (a change to the code that removes the obligation altogether is reported below, as a vanished claim)
+				found := false
+				for k := range claims {
+					if re.MatchString(k) {
+						found = true
+					}
+				}
+				if !found {
+					lost = append(lost, "(no obligation matches core pattern "+pat+")")
+				}
+			}
+		}
+		if len(lost) > 0 {
+			sort.Strings(lost)
+			for _, n := range lost {
+				fmt.Println("UNCLAIMED-CORE:", n)
+			}
+			fmt.Println("error: core obligations of", *prop, "are not claimed; the claim files must be repaired (maintenance), nothing is reported")
+			os.Exit(2)
+		}
+	}
+	if os.Getenv("GOVC_LIST_UNCLAIMED") != "" {
+		// maintenance aid: contract-labelled obligations that are generated but not claimed in this tier
+		for _, r := range all {
+			if !claims[r.Obl.Name] && !panicKinds[r.Obl.Kind] && r.Obl.Kind != "cover" {
+				fmt.Println("UNCLAIMED:", r.Obl.Name)
+			}
+		}
+		os.Exit(0)
+	}
 	genS := time.Since(t0).Seconds() - loadS
 	order := []int{0, 1, 2}
 	// quick tier: only the claimed obligations (and listed findings, and the vacuity guards that were
 	// satisfiable on the baseline) are attempted; everything else is reported as not attempted
 	notAttempted := 0
+	var openObls []string // contract-labelled obligations that are generated but not claimed (hence not proved) in this tier
+	for _, r := range all {
+		_, isKnown := known[r.Obl.Name]
+		if !claims[r.Obl.Name] && !isKnown && !panicKinds[r.Obl.Kind] && r.Obl.Kind != "cover" {
+			openObls = append(openObls, r.Obl.Name)
+		}
+	}
+	sort.Strings(openObls)
 	if *tier == "quick" && !*writeClaims {
 		var sel []*OblResult
 		for _, r := range all {
@@ -166,7 +220,7 @@ func cmdCheck(args []string) {
 
 	if *writeClaims {
 		var names []string
-		limit := 3.0
+		limit := 5.0
 		if *tier == "thorough" {
 			limit = 40.0
 		}
@@ -347,6 +401,10 @@ func cmdCheck(args []string) {
 			assumptions = append(assumptions, "contract assume: "+a)
 		}
 	}
+	sort.Strings(assumptions[len(baseAssumptions)+len(cfg.Assume):])
+	for _, n := range openObls {
+		assumptions = append(assumptions, "OPEN OBLIGATION (generated from the contracts, not claimed, so not proved; what depends on it is conditional): "+n)
+	}
 	var ab []string
 	for a := range abstrAll {
 		ab = append(ab, a)
@@ -360,6 +418,7 @@ func cmdCheck(args []string) {
 			"checker_cmd":                           fmt.Sprintf("/verif/bin/govc check --prop %s --tier %s  (VC generation over go/ssa of /repo working tree; z3 5.1.0, z3 4.8.12, cvc5 1.0)", *prop, *tier),
 			"trusted_base":                          trustedBase,
 			"functions":                             fnInfo,
+			"open_contract_obligations":             openObls,
 			"by_solver":                             bySolver,
 			"solver_time_s":                         solverTime,
 			"generated_obligations":                 len(all),
